@@ -258,6 +258,22 @@ theorem V2_skel_tx_abort_all_proposals (s : Sys) (t : Tx) (ps : List Proposal)
       (gTxIterOf t) (gTxIterOf t default) "allAborted" ps true) = planTraceTx (txAbort s t) := by
   rw [loop_tx_abort]; simp [txAbort, h, hps]
 
+/-- The split the loop theorems rest on is the function itself: for EVERY abstract state, the whole-function
+    skeleton of each reconcile function in its in-progress phase is the initialisation of the loop flag, then
+    ONE pass - the iteration's trace followed, where the iteration hands over, by the statements after the
+    loop.  (`emitLoops` and `emitSkeleton` are two walks over the same syntax tree; this is what says they
+    agree, so a statement moved into or out of the loop cannot go unnoticed by one of them.) -/
+theorem V2_skel_tx_loops_split (g : V2G) :
+    (g.n "transaction.Status.Phases.Validate.State" = g.n "configapi.TransactionValidatePhase_VALIDATING" →
+      proj (v2sk_tx_validate g) = .set "allValidated" "true" :: onePass v2sk_tx_validate_loop1_body v2sk_tx_validate_loop1_after g) ∧
+    (g.n "transaction.Status.Phases.Commit.State" = g.n "configapi.TransactionCommitPhase_COMMITTING" →
+      proj (v2sk_tx_commit g) = .set "allCommitted" "true" :: onePass v2sk_tx_commit_loop1_body v2sk_tx_commit_loop1_after g) ∧
+    (g.n "transaction.Status.Phases.Apply.State" = g.n "configapi.TransactionApplyPhase_APPLYING" →
+      proj (v2sk_tx_apply g) = .set "allApplied" "true" :: onePass v2sk_tx_apply_loop1_body v2sk_tx_apply_loop1_after g) ∧
+    (g.n "transaction.Status.Phases.Abort.State" = g.n "configapi.TransactionAbortPhase_ABORTING" →
+      proj (v2sk_tx_abort g) = .set "allAborted" "true" :: onePass v2sk_tx_abort_loop1_body v2sk_tx_abort_loop1_after g) :=
+  ⟨split_tx_validate g, split_tx_commit g, split_tx_apply g, split_tx_abort g⟩
+
 /-- non-vacuity: two targets, the second still validating - nothing is written, the transaction waits -/
 example : txValidateLoop { index := 3 } [{ target := 1, index := 3, validate := .done }, { target := 2, index := 3, validate := .opened }] true = .nop := rfl
 /-- … and a failed validation of the second target fails the transaction although the first is validated -/
